@@ -171,7 +171,7 @@ func zone(name string) *zoneInfo {
 	limit := time.Date(2040, 1, 1, 0, 0, 0, 0, time.UTC)
 	for {
 		_, end := t.ZoneBounds()
-		if end.IsZero() || end.After(limit) {
+		if end.IsZero() || end.After(limit) || !end.After(t) {
 			break
 		}
 		_, o1 := end.Add(-time.Second).Zone()
@@ -384,9 +384,21 @@ func genExpr(rt *rapid.T, o optSet) exprCase {
 			present = present[:len(present)-1]
 		}
 	}
+	// now and then a date that exists rarely or never (29-31 of a short month): these searches run for
+	// years, reach the five-year bound, and are where "no such time" has to be reported
+	rareDay := rapid.IntRange(0, 24).Draw(rt, "rareDay") == 0
 	for _, f := range present {
 		e.fidx = append(e.fidx, f)
-		e.fields = append(e.fields, genField(rt, f))
+		switch {
+		case rareDay && f == refcron.FDom:
+			e.fields = append(e.fields, rapid.SampledFrom([]string{"29", "30", "31", "30,31", "29-31", "31/2", "30-31"}).Draw(rt, "rareDom"))
+		case rareDay && f == refcron.FMonth:
+			e.fields = append(e.fields, rapid.SampledFrom([]string{"2", "feb", "FEB", "2", "Feb", "4", "2,4", "feb,jun", "4,6,9,11", "NOV", "9-9", "2/12"}).Draw(rt, "rareMonth"))
+		case rareDay && f == refcron.FDow:
+			e.fields = append(e.fields, rapid.SampledFrom([]string{"*", "?", "*", "mon"}).Draw(rt, "rareDow"))
+		default:
+			e.fields = append(e.fields, genField(rt, f))
+		}
 	}
 	return e
 }
